@@ -137,3 +137,40 @@ def multipart_eci_cases(rng, thorough=False):
                         parts = [(a, None, enc_a), sep, (z, None, enc_z) if enc_z else z]
                         out.append({'content': parts, 'eci': True, 'error': level, 'micro': False, 'mask': 0, 'boost_error': False})
     return out
+
+
+def multisegment_boundary_cases(rng, versions=(1, 2, 9, 10), thorough=False):
+    """Contents of k = 2..6 parts of alternating modes (numeric / alphanumeric / byte, never merged) whose total bit length
+    in version v sits just below / at / just above the capacity, requested with version=v and without: the per-segment
+    overhead (mode indicator + count indicator) differs between Micro versions, 1-9, 10-26 and 27-40, so a fit that was
+    computed for another version class must be re-checked."""
+    out = []
+    pattern = (1, 2, 4)
+    for v in versions:
+        for level in ('L', 'M', 'Q', 'H'):
+            cap = capacity(v, level)
+            for k in (2, 3, 4, 5, 6):
+                for start in (0, 1):
+                    modes = [pattern[(start + i) % (2 if k % 2 else 3)] for i in range(k)]
+                    # short fixed parts, the last one fills up to the capacity
+                    lens = [rng.choice([1, 2, 3, 4, 5]) for _ in range(k - 1)]
+                    used = sum(bits(m, n, v) for m, n in zip(modes, lens))
+                    last = modes[-1]
+                    for target in (cap - 3, cap, cap + 2, cap + 5, cap + 9):
+                        n = 0
+                        while used + bits(last, n + 1, v) <= target:
+                            n += 1
+                        if n < 1:
+                            continue
+                        parts = [content_of(rng, m, ln) for m, ln in zip(modes, lens + [n])]
+                        for rv in (True, False):
+                            c = {'content': parts, 'error': level, 'boost_error': False, 'mask': 0}
+                            if rv:
+                                c['version'] = v
+                            else:
+                                c['micro'] = rng.choice([None, False])
+                            out.append(c)
+    if not thorough:
+        rng.shuffle(out)
+        out = out[:700]
+    return out
